@@ -364,10 +364,15 @@ class AsyncBaseClient:
         except json.JSONDecodeError as exc:
             raise GraphQLClientInvalidMessageFormat(message=message) from exc
 
+        if not isinstance(message_dict, dict):
+            raise GraphQLClientInvalidMessageFormat(message=message)
+
         type_ = message_dict.get("type")
         payload = message_dict.get("payload", {})
 
-        if not type_ or type_ not in {t.value for t in GraphQLTransportWSMessageType}:
+        if not isinstance(type_, str) or type_ not in {
+            t.value for t in GraphQLTransportWSMessageType
+        }:
             raise GraphQLClientInvalidMessageFormat(message=message)
 
         if expected_type and expected_type != type_:
@@ -376,7 +381,7 @@ class AsyncBaseClient:
             )
 
         if type_ == GraphQLTransportWSMessageType.NEXT:
-            if "data" not in payload:
+            if not isinstance(payload, dict) or "data" not in payload:
                 raise GraphQLClientInvalidMessageFormat(message=message)
             return cast(Dict[str, Any], payload["data"])
 
@@ -389,8 +394,13 @@ class AsyncBaseClient:
                 json.dumps({"type": GraphQLTransportWSMessageType.PONG.value})
             )
         elif type_ == GraphQLTransportWSMessageType.ERROR:
+            errors = message_dict.get("payload", [])
+            if not isinstance(errors, list) or not all(
+                isinstance(error, dict) and "message" in error for error in errors
+            ):
+                raise GraphQLClientInvalidMessageFormat(message=message)
             raise GraphQLClientGraphQLMultiError.from_errors_dicts(
-                errors_dicts=payload, data=message_dict
+                errors_dicts=errors, data=message_dict
             )
 
         return None
